@@ -430,6 +430,12 @@ class GroupModel:
             out.uniq = nm[3][1]
             out.name_base = nm[3][2][0]
             out.name_keep = (nm[1], nm[2])
+        elif out.kind == "key" or any(is_uniq(x) for x in subterms(nm)):
+            # a name chosen by cases (kept as it is / uniquified): judged by the key-column rule, which evaluates the cases
+            uq = [x for x in subterms(nm) if is_uniq(x)]
+            out.uniq = uq[0][1] if uq else None
+            out.name_base = nm
+            out.name_keep = (nm, nm)
         else:
             out.problems.append(f"output name `{self.sh(nm, 60)}` does not pass through the uniquifier")
             out.name_base = nm
